@@ -1613,9 +1613,37 @@ func (*Context).Init
 // code compiled under an earlier configuration is reused (C16), and the parser starts from an empty code buffer (C08).
 // newParser and the PEG runtime's parse loop are generated code: assumed (listed), not verified.
 func newParser
+  props C16 C08 C01 C19
+  requires forall k in [0, len(opts)): opts[k] != nil
+  callbacks-keep parser.cur~current.data parser.pt~position.line parser.pt~position.col parser.pt~position.offset parser.maxFailPos~position.line parser.maxFailPos~position.col parser.maxFailPos~position.offset
+  ensures result != nil && isFresh(result) && result.cur.data != nil && isFresh(result.cur.data)
+  // a fresh parser stands before the first rune (offset 0, line 1, column 0: read() moves onto column 1) and its
+  // farthest-failure record starts at line 1, column 1 — what an error at the very first rune reports (C19)
+  ensures [C19] result.pt.offset == 0 && result.pt.line == 1 && result.pt.col == 0
+  ensures [C19] result.maxFailPos.offset == 0 && result.maxFailPos.line == 1 && result.maxFailPos.col == 1
+
+// memoized returns a function literal (never nil); the literal itself is not verified.
+func memoized
   props C16 C08 C01
   noverify
-  ensures result != nil && isFresh(result) && result.cur.data != nil && isFresh(result.cur.data)
+  assigns nothing
+  ensures result != nil
+
+// setOptions: options (functional option values) configure flags of the parser; they are assumed not to move its position
+// or replace its data (callbacks-keep, listed).
+func (*parser).setOptions
+  props C16 C08 C01 C19
+  requires p != nil
+  requires forall k in [0, len(opts)): opts[k] != nil
+  callbacks-keep parser.cur~current.data parser.pt~position.line parser.pt~position.col parser.pt~position.offset parser.maxFailPos~position.line parser.maxFailPos~position.col parser.maxFailPos~position.offset elem.option
+  ensures p.cur.data == old(p.cur.data)
+  ensures p.pt.offset == old(p.pt.offset) && p.pt.line == old(p.pt.line) && p.pt.col == old(p.pt.col)
+  ensures p.maxFailPos.offset == old(p.maxFailPos.offset) && p.maxFailPos.line == old(p.maxFailPos.line) && p.maxFailPos.col == old(p.maxFailPos.col)
+  loop 1
+    invariant p != nil && p.cur.data == old(p.cur.data)
+    invariant forall k in [0, len(opts)): opts[k] != nil
+    invariant p.pt.offset == old(p.pt.offset) && p.pt.line == old(p.pt.line) && p.pt.col == old(p.pt.col)
+    invariant p.maxFailPos.offset == old(p.maxFailPos.offset) && p.maxFailPos.line == old(p.maxFailPos.line) && p.maxFailPos.col == old(p.maxFailPos.col)
 
 func (*parser).parse
   props C16 C08 C01
